@@ -82,10 +82,16 @@ var helperDefs = map[string]string{
 	"XE": "XE -> N :\n    ta? ;\n",
 	"W":  "W :\n    X\n  | W X\n;\n",
 	"V":  "V -> C :\n    td X Y? ;\n",
+	// a named field collecting two node types (multi-type, non-category selector)
+	"MAB": "MAB :\n    m=X\n  | m=Y\n;\n",
+	"MBD": "MBD :\n    n=Y\n  | n=K\n;\n",
+	"K":   "K -> D :\n    td ;\n",
+	// a user category whose name coincides with the synthetic category of injected tokens
+	"ES": "ES -> TokenSet :\n    ta -> A\n  | Y\n;\n",
 	"T":  "", // defined by the candidate itself
 }
-var helperOrder = []string{"Z", "E", "XE", "W", "V", "X", "Y"}
-var helperNeeds = map[string][]string{"E": {"Y"}, "W": {"X"}, "V": {"X", "Y"}}
+var helperOrder = []string{"Z", "E", "ES", "XE", "W", "V", "MAB", "MBD", "K", "X", "Y"}
+var helperNeeds = map[string][]string{"E": {"Y"}, "ES": {"Y"}, "W": {"X"}, "V": {"X", "Y"}, "MAB": {"X", "Y"}, "MBD": {"Y", "K"}}
 
 // cand is one grammar of the enumeration, without its option variant.
 type cand struct {
@@ -202,9 +208,9 @@ func enumerate() []cand {
 			for _, t2 := range names {
 				for _, t3 := range names {
 					early := 2
-					// the quick tier runs six of the grammars whose two leaves of N share a node type
-					// while the third sorts differently (four of the first role, two of the second)
-					if t1 == t2 && t3 != t1 && (t3 == "Abc" || (role == 0 && (t1 == "Zed" || t3 == "Zed" && t1 == "Abc"))) {
+					// the quick tier runs four of the grammars whose two leaves of N share a node type
+					// while the third sorts differently (two of each role)
+					if t1 == t2 && t3 != t1 && ((t3 == "Abc" && (t1 == "Zed" || role == 1)) || (role == 0 && t1 == "Zed")) {
 						early = 1
 					}
 					t1r, t2r := "tx N", "ty N foo+=L3"
@@ -238,7 +244,7 @@ func enumerate() []cand {
 					}
 				}
 				early := 1
-				if (tail != "" && !(k == 2 && head == "x=X")) || (k == 1 && head == "X") {
+				if (tail != "" && !(k == 2 && head == "x=X")) || k == 1 || (k == 2 && head == "X" && tail == "") {
 					early = 2
 				}
 				maxLen := 0
@@ -300,6 +306,67 @@ func enumerate() []cand {
 					out = append(out, cd)
 				}
 			}
+		}
+	}
+	// SD "multi-type fields in overlap chains": the named fields m (A | B) and n (B | D), each
+	// collected by an arrow-less nonterminal from two alternatives, next to single-type fields
+	// that overlap with them; the last part is required, optional or a list. The accessor of
+	// a later field has to step over the earlier ones with THEIR selectors (a OneOf variable
+	// for multi-type fields, a plain type selector otherwise).
+	sdAtoms := []part{{"", "MAB", ""}, {"", "MBD", ""}, {"f=", "X", ""}, {"g=", "Y", ""}, {"h=", "K", ""}}
+	sdEarly := map[string]bool{"MAB g=Y": true, "MAB MBD": true, "MBD g=Y?": true}
+	for _, p := range sdAtoms {
+		for _, q := range sdAtoms {
+			for _, quant := range []string{"", "?", "*"} {
+				q.quant = quant
+				body := p.String() + " " + q.String()
+				cd := cand{Shape: "SD", Rules: "S -> @ROOT@ :\n    " + body + " ;\n"}
+				if sdEarly[body] {
+					cd.Early = 1
+				}
+				out = append(out, cd)
+			}
+		}
+	}
+	for _, p := range sdAtoms {
+		for _, q := range sdAtoms {
+			for _, r := range sdAtoms {
+				if p.field != "" && q.field != "" && r.field != "" {
+					continue // at least one multi-type field
+				}
+				out = append(out, cand{Shape: "SD", MaxLen: 3, Rules: "S -> @ROOT@ :\n    " + p.String() + " " + q.String() + " " + r.String() + " ;\n"})
+			}
+		}
+	}
+	// SE "a user category named like a generated one": ES -> TokenSet (the name the generator
+	// gives to the synthetic category of injected terminals) as the type of a required,
+	// optional or list field, with and without an injected terminal next to it.
+	for _, tail := range []string{"", " tc", " g=tc?"} {
+		for _, f := range []string{"", "f="} {
+			for _, q := range []string{"", "?", "*", "+"} {
+				cd := cand{Shape: "SE", Rules: "S -> @ROOT@ :\n    " + part{f, "ES", q}.String() + tail + " ;\n"}
+				if q == "?" && f == "f=" && tail == " tc" {
+					cd.Early = 1
+				}
+				out = append(out, cd)
+			}
+		}
+	}
+	// SF "zero-width nodes inside items": a node type P whose body has a nullable arrow (XE ->
+	// N : ta?) or a zero-width node around it (O -> Outer : XE) at its start, middle or end,
+	// as the only child of the root or as the element of a list (so that an empty node left
+	// outside of one item can be adopted by the next one).
+	for _, wrap := range []string{"I", "I+"} {
+		for _, body := range []string{"tx Y XE", "XE tx Y", "tx XE Y", "tx Y O", "O tx Y", "tx O Y"} {
+			rules := "S -> @ROOT@ :\n    " + wrap + " ;\n\nI -> P :\n    " + body + " ;\n"
+			if strings.Contains(body, "O") {
+				rules += "\nO -> Outer :\n    XE ;\n"
+			}
+			cd := cand{Shape: "SF", MaxLen: 5, Rules: rules}
+			if wrap == "I+" && body == "tx Y XE" {
+				cd.Early = 1
+			}
+			out = append(out, cd)
 		}
 	}
 	return out
@@ -419,6 +486,9 @@ func tmText(cd cand, v variant, name string) string {
 	}
 	if used["Top"] {
 		sb.WriteString("%interface Top;\n")
+	}
+	if used["TokenSet"] {
+		sb.WriteString("%interface TokenSet;\n")
 	}
 	sb.WriteString("\n")
 	sb.WriteString(ptext)
@@ -746,7 +816,7 @@ func walkerDriver(reg *[]okGrammar) func(g *grammar.Grammar, name string) string
 				fmt.Fprintf(&b, "\tvar l %s.Lexer\n\tl.Init(text)\n\tperr := p.Parse(%s&l)\n", n, ctxArg)
 			}
 			fmt.Fprintf(&b, "\ttree, err := %sast.Parse(%s\"in\", text)\n", n, ctxArg)
-			fmt.Fprintf(&b, "\tif err != nil {\n\t\tif se, ok := err.(%s.SyntaxError); ok {\n\t\t\tres.ErrOff, res.ErrEnd, res.ErrMsg = se.Offset, se.Endoffset, \"syntax\"\n\t\t} else {\n\t\t\tres.ErrOff, res.ErrMsg = -1, err.Error()\n\t\t\tres.Events = events\n\t\t}\n\t\treturn res\n\t}\n", n)
+			fmt.Fprintf(&b, "\tif err != nil {\n\t\tif se, ok := err.(%s.SyntaxError); ok {\n\t\t\tres.ErrOff, res.ErrEnd, res.ErrMsg = se.Offset, se.Endoffset, \"syntax\"\n\t\t} else {\n\t\t\tres.ErrOff, res.ErrMsg = -1, err.Error()\n\t\t\tres.Events = events\n\t\t\tif perr == nil {\n\t\t\t\tres.Steps = 1\n\t\t\t}\n\t\t}\n\t\treturn res\n\t}\n", n)
 			b.WriteString("\tres.Accept = true\n\tres.Events = events\n\tif perr != nil {\n\t\tres.ErrMsg = \"listener-only parse failed: \" + perr.Error()\n\t}\n")
 			fmt.Fprintf(&b, "\tw := newWalker(%[1]ssel.Any, %[1]sast.To%[2]s, %[2]q, reflect.TypeOf((*%[1]sast.Node)(nil)))\n", n, baseNodeName(ok.g))
 			b.WriteString("\tw.visit(reflect.ValueOf(tree.Root()), -1)\n\tres.Values = []string{w.json()}\n\treturn res\n}\n")
@@ -934,6 +1004,8 @@ func panicClass(msg string) string {
 	switch {
 	case strings.Contains(msg, "walker-decode"):
 		return "walker-decode"
+	case strings.Contains(msg, "interface conversion") && strings.Contains(msg, "NilNode is not"):
+		return "nilnode-lacks-category-method"
 	case strings.Contains(msg, "interface conversion"):
 		return "interface-conversion"
 	case strings.Contains(msg, "unknown node type"):
@@ -971,6 +1043,32 @@ func checkTree(gi *gramInfo, text string, res genharness.Result, ex *exercise) (
 	// a second, listener-only parse tell whether an absent required node was in fact reported
 	// by the parser as an empty range inside (or right behind) the receiver. Used to choose
 	// the key only.
+	// A zero-width range that the parser reported right before a range ending at or before its
+	// offset was the last child of that (or an enclosing) node; the builder leaves it outside,
+	// and a later node starting at the same offset may adopt it ("foreign" empty child).
+	strayEmpty := map[string]bool{}
+	for i, e := range res.Events {
+		if e.Off != e.End || gi.injected[e.Type] {
+			continue
+		}
+		for _, nx := range res.Events[i+1:] {
+			if gi.injected[nx.Type] {
+				continue
+			}
+			if nx.End <= e.Off {
+				strayEmpty[fmt.Sprintf("%s@%d", e.Type, e.Off)] = true
+			}
+			break
+		}
+	}
+	adoptedStray := func(parent *vNode) bool {
+		for _, id := range parent.Kids {
+			if ch := &nodes[id]; ch.Off == ch.End && strayEmpty[fmt.Sprintf("%s@%d", ch.Type, ch.Off)] {
+				return true
+			}
+		}
+		return false
+	}
 	emptyMisplaced := func(n *vNode, types map[string]bool) bool {
 		for _, e := range res.Events {
 			if e.Off != e.End || !types[e.Type] || e.Off < n.Off || e.Off > len(text) {
@@ -1121,8 +1219,11 @@ func checkTree(gi *gramInfo, text string, res genharness.Result, ex *exercise) (
 			}
 			if !covered[k] {
 				key := "accessor:child-not-returned"
-				if childMisplaced(n, k) {
+				switch {
+				case childMisplaced(n, k):
 					key = "empty-node-misplaced:attached-to-wrong-parent"
+				case adoptedStray(n):
+					key = "empty-node-misplaced:foreign-empty-node-adopted"
 				}
 				add(key, "%s: child #%d %s[%d,%d) is returned by no accessor (declared fields: %s)", where, k, ch.Type, ch.Off, ch.End, rt.Descriptor())
 			}
@@ -1192,6 +1293,18 @@ func checkItem(c *core.Ctx, it *item) (nontrivial bool, fs []finding) {
 			// ast.Parse refused to build a tree for a sentence (e.g. "exactly one root node is
 			// expected"): there is no tree to talk about, the statement is silent.
 			c.Outcome("no-tree: "+res.ErrMsg, 1)
+			// ... except when the parser itself accepted the input (Steps == 1: the listener-only
+			// parse returned nil) and reported a zero-width range: the builder then left that
+			// node outside of its parent and ended up with two roots. Same root cause as the
+			// other empty-node-misplaced keys, reported as its own symptom.
+			if res.Steps == 1 && it.g.Options.FileNode == "" {
+				for _, e := range res.Events {
+					if e.Off == e.End && !gi.injected[e.Type] {
+						report("empty-node-misplaced:no-single-root", fmt.Sprintf("input %q has no syntax error, but ast.Parse fails with %q: the zero-width node %s[%d,%d) was not adopted by its parent", text, res.ErrMsg, e.Type, e.Off, e.End), text, i)
+						break
+					}
+				}
+			}
 			continue
 		}
 		accepted++
@@ -1269,7 +1382,6 @@ var seeds = []string{
 	"S -> @ROOT@ :\n    f=X f=Y ;\n",                                              // repeated field -> list of two types
 	"S -> @ROOT@ :\n    X X X ;\n",                                                // repeated unnamed field -> list
 	"S -> @ROOT@ :\n    E+ ;\n",                                                   // list of a category
-	"S -> @ROOT@ :\n    f=E g=X? ;\n",                                             // category next to an overlapping type
 	"S -> @ROOT@ :\n    Z? ;\n",                                                   // two types without a category
 	"S -> @ROOT@ :\n    f=(tc separator td)* ;\n",                                 // list of injected terminals
 	"S -> @ROOT@ :\n    V* ;\n",                                                   // nodes with own fields
@@ -1277,8 +1389,6 @@ var seeds = []string{
 	"S -> @ROOT@ :\n    f=(X -> In) Y* ;\n",                                       // inner arrow
 	"S -> @ROOT@ :\n    (f=X Y* separator td)+ ;\n",                               // list over a two-part body
 	"S -> @ROOT@ :\n    T+ ;\nT -> Top :\n    ta X -> R1\n  | tb f=Y? -> R2\n;\n", // list of a category of nodes with fields
-	"S -> @ROOT@ :\n    f=X g=X h=X? ;\n",                                         // FetchAfter chain of three
-	"S -> @ROOT@ :\n    Y XE ;\n",                                                 // nullable arrow at the end
 	"S -> @ROOT@ :\n    XE Y ;\n",                                                 // nullable arrow at the start
 }
 
